@@ -112,6 +112,7 @@ type parOpts struct {
 	Spin     int
 	RunUntil bool // serial engine only: drive the run through RunUntil(t) boundaries, then Run
 	Double   bool // every pause is issued by two goroutines at once (overlapping Pause calls)
+	MinFirst int  // directed scenarios: wait until this many handlers are parked before the first release
 }
 
 // runPar executes one program and returns its log (ending with ret).
@@ -194,6 +195,7 @@ func runPar(p program, o parOpts, rng *rand.Rand) []map[string]any {
 	}
 	// gated: release one parked handler at a time once the system is stable
 	finished := false
+	released := 0
 	lastProgress := time.Now()
 	lastLen := -1
 	for !finished {
@@ -245,6 +247,11 @@ func runPar(p program, o parOpts, rng *rand.Rand) []map[string]any {
 			c.mu.Unlock()
 			continue
 		}
+		if released == 0 && n < o.MinFirst && time.Since(lastProgress) < 2*time.Second {
+			c.mu.Unlock()
+			continue
+		}
+		released++
 		pick := rng.Intn(n)
 		if o.Policy == "lowkey" {
 			pick = 0
@@ -278,7 +285,7 @@ func init() {
 		if err := json.Unmarshal(raw, &in); err != nil {
 			return nil, err
 		}
-		o := parOpts{Engine: in.Engine, Procs: in.Procs, Gated: in.Gated, Policy: in.Policy, Pauses: in.Pauses, PauseMid: in.PauseMid, Spin: in.Spin, RunUntil: in.RunUntil, Double: in.Double}
+		o := parOpts{Engine: in.Engine, Procs: in.Procs, Gated: in.Gated, Policy: in.Policy, Pauses: in.Pauses, PauseMid: in.PauseMid, Spin: in.Spin, RunUntil: in.RunUntil, Double: in.Double, MinFirst: in.MinFirst}
 		rng := rand.New(rand.NewSource(in.Seed))
 		f, err := os.Create(in.Out)
 		if err != nil {
@@ -333,6 +340,7 @@ type parOptsJSON struct {
 	PauseMid   bool   `json:"pause_mid"`
 	RunUntil   bool   `json:"run_until"`
 	Double     bool   `json:"double"`
+	MinFirst   int    `json:"min_first"`
 	Spin       int    `json:"spin"`
 }
 
